@@ -622,8 +622,11 @@ def _key_of(t: T) -> Optional[str]:
 
 
 def _transform(ctx, prog):
+    from ..lib import extra_defaults
     f = prog.func(FI + "load_transform_json")
-    r = Interp(prog).run(f)
+    extra = extra_defaults(f, f.params[:1])
+    ctx.require(extra is not None, "load_transform_json: signature changed")
+    r = Interp(prog).run(f, dict(extra))     # later options at defaults
     ret = r.ret
     ok = False
     if is_call_to(ret, "evo.core.lie_algebra.sim3") and \
@@ -717,7 +720,9 @@ def _transform(ctx, prog):
            key="C07.5:json:keys")
 
     g = prog.func(FI + "load_transform")
-    rg = Interp(prog).run(g)
+    extra = extra_defaults(g, g.params[:1])
+    ctx.require(extra is not None, "load_transform: signature changed")
+    rg = Interp(prog).run(g, dict(extra))
     rets = rg.of_kind("return")
     raises = [e for e in rg.of_kind("raise")
               if "FileInterfaceException" in (e.data.get("exc_name") or "")]
